@@ -11,7 +11,7 @@ Three legs:
    (vlib/mem_sweep.py + harness/mem_sweep.cpp): every scenario balanced without injection, and for each sampled
    allocation index k a forked child in which the k-th allocate is refused, classified by outcome and call-site
    signature.  Neither involves the Coq model."""
-import os, re, json
+import os, re, json, time
 from vlib import core
 
 LEVEL = "proof"
@@ -335,6 +335,13 @@ def oracle_container(c, line):
 def run_containers(ctx, impl, model, sizes, cases, corr, orc):
     lines = [case_line(c) for c in cases]
     rc_i, res_i, raw_i = core.run_lines_parallel(impl, lines)
+    for _ in range(3):
+        # .build/plain is shared with the other checks; a concurrent relink makes the loader fail: wait and retry
+        if rc_i == 0 or "shared libraries" not in raw_i:
+            break
+        core.build_lib("plain")
+        time.sleep(2)
+        rc_i, res_i, raw_i = core.run_lines_parallel(impl, lines)
     rc_m, res_m, raw_m = core.run_lines_parallel(model, lines) if model else (0, {}, "")
     if rc_i != 0:
         orc.append({"case": "(process)", "what": "container harness exited with status %d: %s" % (rc_i, raw_i[-300:]), "known": None})
